@@ -305,7 +305,7 @@ func c18Exec(op string) string {
 		return execB64(f)
 	case "skey":
 		return execSkey(f)
-	case "sdec":
+	case "sdec", "sdec-alloc":
 		return execSdec(f)
 	case "xdec":
 		return execXdec(f)
@@ -344,7 +344,7 @@ func b64(raw []byte) []byte {
 // oracles for the model: what json.Unmarshal returns on the metadata bytes the specification
 // selects, and what scrypt + chacha20poly1305 return on the parsed parameters.
 func sdecOp(data, pw []byte) string {
-	um, fin := "-", "-"
+	um, fin, name := "-", "-", "sdec"
 	raw := make([]byte, base64.StdEncoding.DecodedLen(len(data)))
 	n, err := base64.StdEncoding.Decode(raw, data)
 	if err == nil {
@@ -357,6 +357,12 @@ func sdecOp(data, pw []byte) string {
 					um = "err"
 				} else {
 					um = fmt.Sprintf("%d,%d,%d,%d,%s,%s", m.N, m.R, m.P, m.KeyLen, Hex(m.Salt), Hex(m.Nonce))
+					// the input class of the known finding: otherwise valid metadata whose scrypt work area
+					// (128*N*r bytes) exceeds what the allocator can ever provide
+					if len(pw) > 0 && len(m.Nonce) == 12 && m.KeyLen == 32 && m.R > 0 && m.R <= 1<<10 && m.P > 0 && m.P <= 1<<10 &&
+						m.N > 1 && m.N&(m.N-1) == 0 && m.N <= 1<<52 && 128*m.N*m.R > 1<<48 {
+						name = "sdec-alloc"
+					}
 					if len(pw) > 0 && len(m.Nonce) == 12 && m.KeyLen == 32 && m.R > 0 && m.P > 0 && m.N > 1 && m.N&(m.N-1) == 0 &&
 						128*m.N*m.R <= 1<<24 && m.P <= 4 && m.R < 1<<20 && m.N < 1<<40 {
 						dk, err := scrypt.Key(pw, m.Salt, m.N, m.R, m.P, m.KeyLen)
@@ -378,7 +384,7 @@ func sdecOp(data, pw []byte) string {
 			}
 		}
 	}
-	return fmt.Sprintf("sdec %s %s um=%s fin=%s", Hex(data), Hex(pw), um, fin)
+	return fmt.Sprintf("%s %s %s um=%s fin=%s", name, Hex(data), Hex(pw), um, fin)
 }
 
 func withMeta(metaJSON []byte, ct []byte, lenField int) []byte {
